@@ -259,6 +259,7 @@ func init() {
 	sentinelLeaf("os.ErrInvalid", os.ErrInvalid, "sentinel")
 	sentinelLeaf("os.ErrClosed", os.ErrClosed, "sentinel")
 	sentinelLeaf("io.EOF", io.EOF, "sentinel")
+	sentinelLeaf("ut.Sentinel", ut.Sentinel, "sentinel")
 	sentinelLeaf("ENOENT", syscall.ENOENT, "errno").Core = true
 	sentinelLeaf("EACCES", syscall.EACCES, "errno")
 	sentinelLeaf("EEXIST", syscall.EEXIST, "errno")
@@ -519,6 +520,19 @@ func init() {
 		Build: func(s []string, c error, _ []error) error { return fmt.Errorf("%w", c) },
 		Model: func(s []string, c *Node, _ []*Node) *Node { return Prefix("", c) }})
 
+	// the cause printed twice: "msg: cause: cause" (prefix ends with ": " + cause text)
+	reg(&Op{Name: "GoErrorf_vw", Kind: KWrap, Slots: unsafe("msg"), Class: "foreign-prefix", Unreg: true,
+		Build: func(s []string, c error, _ []error) error { return fmt.Errorf(pct(s[0])+": %v: %w", c, c) },
+		Model: func(s []string, c *Node, _ []*Node) *Node { return foreignPrefix(s[0]+": "+c.Text, c, s[0]) }})
+	reg(&Op{Name: "Newf_vw", Kind: KWrap, Slots: safe("fmt"), NSide: 1, Class: "fullmsg", Lib: true,
+		Build: func(s []string, c error, side []error) error { return errors.Newf(pct(s[0])+" %v: %w", side[0], c) },
+		Model: func(s []string, c *Node, side []*Node) *Node {
+			f := fullMsg(s[0]+" "+side[0].Text+": "+c.Text, c)
+			f.Lib = true
+			f.Safe = s
+			return Stack(Secondary(Secondary(f, side[0]), c))
+		}})
+
 	// pkg/errors
 	reg(&Op{Name: "PkgWithMessage", Kind: KWrap, Slots: unsafe("msg"), Class: "foreign-prefix",
 		Build: func(s []string, c error, _ []error) error { return pkgerrors.WithMessage(c, s[0]) },
@@ -683,6 +697,13 @@ func init() {
 		Build: func(s []string, c error, side []error) error { return &ut.UMulti{Msg: s[0], Es: bre(c, side)} },
 		Model: func(s []string, c *Node, side []*Node) *Node {
 			m := multi(s[0]+" | "+c.Text+" | "+side[0].Text, br(c, side))
+			m.Unsafe = s
+			return m
+		}})
+	reg(&Op{Name: "ut.IsMulti", Kind: KMulti, Slots: unsafe("msg"), NSide: 1, Class: "user-multi", Unreg: true,
+		Build: func(s []string, c error, side []error) error { return &ut.IsMulti{Msg: s[0], Es: bre(c, side)} },
+		Model: func(s []string, c *Node, side []*Node) *Node {
+			m := multi(s[0]+" / "+c.Text+" / "+side[0].Text, br(c, side))
 			m.Unsafe = s
 			return m
 		}})
